@@ -247,19 +247,43 @@ def build_driver(name="core"):
     return rc, out
 
 
+def harness_dir():
+    """/verif/harness builds against /repo. With SAKURA_REPO=<other tree> (used to try a seeded change without
+    touching /repo) a copy of the harness crate with the dependency path rewritten lives under .cache/."""
+    if os.path.realpath(REPO) == "/repo":
+        return HARNESS
+    d = os.path.join(CACHE, "harness_" + hashlib.sha256(os.path.realpath(REPO).encode()).hexdigest()[:10])
+    os.makedirs(d, exist_ok=True)
+    for sub in ("src", ".cargo"):
+        dst = os.path.join(d, sub)
+        if os.path.exists(dst):
+            shutil.rmtree(dst)
+        if os.path.exists(os.path.join(HARNESS, sub)):
+            shutil.copytree(os.path.join(HARNESS, sub), dst)
+    toml = open(os.path.join(HARNESS, "Cargo.toml"), encoding="utf-8").read().replace('path = "/repo"', 'path = "%s"' % os.path.realpath(REPO))
+    open(os.path.join(d, "Cargo.toml"), "w", encoding="utf-8").write(toml)
+    return d
+
+
+def harness_bin():
+    return os.path.join(harness_dir(), "target", "debug", "sakura_harness")
+
+
 def build_harness():
+    hd = harness_dir()
     key = tree_hash([os.path.join(REPO, "src"), os.path.join(REPO, "Cargo.toml"), os.path.join(REPO, "build.rs"),
-                     os.path.join(HARNESS, "src"), os.path.join(HARNESS, "Cargo.toml")])
-    binp = os.path.join(HARNESS, "target", "debug", "sakura_harness")
-    if stamp_ok("harness", key) and os.path.exists(binp):
+                     os.path.join(hd, "src"), os.path.join(hd, "Cargo.toml")])
+    binp = os.path.join(hd, "target", "debug", "sakura_harness")
+    stamp = "harness_" + os.path.basename(hd)
+    if stamp_ok(stamp, key) and os.path.exists(binp):
         return 0, "cached"
-    lock = os.path.join(REPO, "Cargo.lock")
-    if os.path.exists(lock) and not os.path.exists(os.path.join(HARNESS, "Cargo.lock")):
-        shutil.copy(lock, os.path.join(HARNESS, "Cargo.lock"))
-    rc, out = sh("cargo build --offline", cwd=HARNESS, timeout=1200,
+    lock = os.path.join("/repo", "Cargo.lock")
+    if os.path.exists(lock) and not os.path.exists(os.path.join(hd, "Cargo.lock")):
+        shutil.copy(lock, os.path.join(hd, "Cargo.lock"))
+    rc, out = sh("cargo build --offline", cwd=hd, timeout=1200,
                  env={"RUSTFLAGS": "--cfg %s" % GUARD_CFG})
     if rc == 0:
-        stamp_set("harness", key)
+        stamp_set(stamp, key)
     return rc, out
 
 
@@ -428,7 +452,7 @@ class Ctx:
     # --- running ---
     def impl(self, lines, stall=10.0, capture_stdout=None):
         self.batch += 1
-        return run_cases(os.path.join(HARNESS, "target", "debug", "sakura_harness"), lines, self.rundir,
+        return run_cases(harness_bin(), lines, self.rundir,
                          "impl%d" % self.batch, stall=stall, capture_stdout=capture_stdout)
 
     def model(self, lines, stall=60.0, driver=None):
